@@ -152,13 +152,14 @@ theorem C08_no_crash {w : World} {picks : List Nat} {so so' : Sorter} {s' : Sess
     (hloop : buildLoop F P g cfg so { w := w, skipMarks := marks } picks = .ok (so', s')) : s'.crashed = false :=
   (run_of_buildLoop _ _ _ _ _ hloop).no_crash hdag hids rfl
 
-/-- **C08_vanished_neighbour_crashes** (finding F29). `C08_no_crash` rests on the model's premise that a
-body only *writes* its products (`Engine.runBody` never removes a file). What the code does when that
-premise is broken — the body deleted one of its own dependency files, so that after a successful
-setup / execute / teardown some neighbour has no state: `update_states_in_database` raises inside
-`process_report`; **no report is appended** and the crash flag is set, after which the build loop
-accepts no further task (`buildLoop` returns `leftover` for any further pick) and `build` ends with
-exit code 1. -/
+/-- **C08_vanished_neighbour_crashes** (what F29 was). `C08_no_crash` rests on the model's premise that a
+body only *writes* its products (`Engine.runBody` never removes a file). If nevertheless some neighbour
+has no state when `process_report` handles a successful protocol, `update_states_in_database` raises:
+**no report is appended**, the crash flag is set, the build loop accepts no further task and `build`
+ends with exit code 1. Before repair ed849b4 a body deleting its own dependency reached exactly this
+situation in the real code; since the repair `pytask_execute_task_teardown` fails such a task
+(`NodeNotFoundError`), so it is reported FAIL — the harness replays it as "writes everything, then
+raises" with the file removed from the world afterwards. -/
 theorem C08_vanished_neighbour_crashes (s : Sess) (t : TaskSpec) (hdry : cfg.dry = false)
     (hv : ∃ v ∈ neighbours g t.id, stateOf P s.w v = none) :
     (processReport P g cfg s t .none).reports = s.reports ∧ (processReport P g cfg s t .none).crashed = true ∧
